@@ -34,6 +34,8 @@ def make_cases(rnd, tier, progs):
     out += modcheck.enumerated(rnd, ["populate_idle_qubits"], "populate-on-every-structured-program",
                                before=((), ("unroll",), ("validate",), ("unroll", "validate")),
                                after=((), ("populate_idle_qubits",), ("unroll",), ("remove_idle_qubits",)))
+    # qubits that BECOME idle after the registers were renumbered (remove_idle_qubits, then a removal) are populated too
+    out += modcheck.chains(rnd, "populate-after-removal-chains", lasts=("populate_idle_qubits", ("populate_idle_qubits", "unroll")))
     return out
 
 
